@@ -123,6 +123,7 @@ fn leaf() { time.sleep(0.06); done = done + 1; }
 fn mid() { time.sleep(0.02); spawn leaf(); time.sleep(0.02); }
 fn start() -> int { spawn mid(); 7 }
 fn get_done() -> int { done }
+fn fresh(k: str, n: int) -> int { let l: [int] = []; l.push(n); let o = new { ? }; o.set(k, n); let ob = new { a: 0, l: [1] }; ob.a += n; ob.l.push(n); l.len() * 1000 + o.keys().len() * 100 + ob.l.len() * 10 + ob.a }
 fn early(x: int) -> int { let y = 100 + if x > 0 { return x; } else { 1 }; y }
 fn nested_call(a: int, b: int) -> int { sub(b, a) * 2 + enc3(a, b, 0) }
 fn fact(n: int) -> int { if n <= 1 { 1 } else { n * fact(n - 1) } }
@@ -289,6 +290,9 @@ FUNCS = {
     "early": (["int"], "int", lambda a, g: ok(a[0]) if a[0][1] > 0 else ok(I(101)), ("v8",)),
     # a call whose function spawns a thread that spawns another one after the first core has ended and been collected:
     # the host call returns only when every core of the invocation has finished (`done` is already counted)
+    # every evaluation of a literal is a fresh value: what one call put into its empty list / any-object / object literal
+    # is not there in the next call (the literals live in the compiled program, shared by all invocations)
+    "fresh": (["str", "dig"], "int", lambda a, g: ok(I(1000 + 100 + 20 + a[1][1])), ()),
     "start": ([], "int", _start, ()),
     "get_done": ([], "int", lambda a, g: ok(g["done"]), ()),
     "nested_call": (["dig", "dig"], "int",
